@@ -550,6 +550,29 @@ class Translator:
         return defs
 
     def addr_sig(self, fname, ptr_ty, opnd, seen=None, depth=0):
+        r = self.addr_sig_inner(fname, ptr_ty, opnd, seen, depth)
+        if r is None and opnd.strip().startswith('%'):
+            # untyped value that is cast to a struct pointer elsewhere in the function: it points to such a struct
+            fn = self.m.funcs[fname]
+            if not hasattr(fn, 'defs'):
+                fn.defs = self.build_defs(fn)
+            best = None
+            pat = re.compile(r'^bitcast i8\* ' + re.escape(opnd.strip()) + r' to (%[\w.$"-]+)\*$')
+            for dd in fn.defs.values():
+                mm = pat.match(dd)
+                if mm:
+                    try:
+                        t0, _ = self.T.parse(mm.group(1))
+                        if t0[0] == 'named' and self.T.resolve(t0)[0] == 'lit':
+                            if best is None or self.T.size_align(t0)[0] > self.T.size_align(best)[0]:
+                                best = t0
+                    except IRError:
+                        pass
+            if best is not None:
+                return {(best[1], 0)}
+        return r
+
+    def addr_sig_inner(self, fname, ptr_ty, opnd, seen=None, depth=0):
         """set of (name, off) the address operand may denote, or None for unknown (TOP)"""
         seen = seen if seen is not None else set()
         opnd = opnd.strip()
@@ -607,11 +630,27 @@ class Translator:
             mm = re.match(r'phi (.*?) (\[.*)$', d)
             t, _ = self.T.parse(mm.group(1))
             res = set()
+            unknown = False
             for v, bb in re.findall(r'\[ (.*?), (%[\w.$-]+) \]', mm.group(2)):
                 r = self.addr_sig(fname, t, v, seen, depth + 1)
                 if r is None:
-                    return None
+                    unknown = True
+                    continue
                 res |= r
+            if unknown:
+                # some incoming value is untyped: assume it has the struct type of the typed ones (a guess that is GUARDED by the
+                # default arm of the candidate switch: if wrong the run is inconclusive, never a wrong verdict)
+                guess = set()
+                for x in res:
+                    if x[0] == 'site':
+                        ty = self.sites[x[1]]['ty']
+                        if ty[0] == 'named' and self.T.resolve(ty)[0] == 'lit':
+                            guess.add((ty[1], 0))
+                    elif x[0] not in ('obj', 'priv'):
+                        guess.add(x)
+                if not guess:
+                    return None
+                return res | guess
             return res
         if op == 'select':
             mm = re.match(r'select i1 (.*?), (.*)$', d)
@@ -714,6 +753,11 @@ class Translator:
             base = self.addr_sig(fname, pt, pv, seen, depth + 1)
             if base is not None and base and all(x[0] in ('obj', 'site', 'priv') for x in base):
                 return base
+            # byte arithmetic with a constant offset on a pointer to a struct: the field at that offset
+            if base is not None and base and len(idxs) == 1 and re.fullmatch(r'-?\d+', idxs[0][1].strip()):
+                c = int(idxs[0][1])
+                if all(x[0] in ('obj', 'site', 'priv') or not x[0].startswith('arr:') for x in base):
+                    return {x if x[0] in ('obj', 'site', 'priv') else (x[0], x[1] + c) for x in base}
             return None
         if sn.startswith('arr:') or sn.startswith('lit:'):
             # scalar-element pointer arithmetic: keep the base's signature when the base is exact
